@@ -255,6 +255,9 @@ void parallel_sort_mwms_pu(PMWMSSortingData<RandomAccessIterator>* sd,
 
     barrier.wait();
 
+    // destroy the temporary copies, then release their storage
+    for (DiffType i = 0; i < length_local; ++i)
+        sd->temporary[iam][i].~ValueType();
     operator delete(sd->temporary[iam]);
 }
 
